@@ -422,8 +422,8 @@ def load_known():
 
 def match_known(prop, key, known):
     for k in known:
-        if k.get("status") != "open" or k.get("property") != prop:
-            continue
+        if k.get("status") != "open":
+            continue      # the key regex starts with the property id(s) the finding applies to
         if re.fullmatch(k["key"], key):
             return k
     return None
